@@ -1322,7 +1322,7 @@ class TupleParser:
         array_size = attrl.get('ARRAYSIZE', None)
         if array_size is not None:
             # Issue #1044: Clarify if hex support is needed.
-            array_size = int(array_size)
+            array_size = self.unpack_arraysize(array_size)
 
         scopes = None
         value = None
@@ -1516,7 +1516,7 @@ class TupleParser:
         array_size = attrl.get('ARRAYSIZE', None)
         if array_size is not None:
             # Issue #1044: Clarify if hex support is needed.
-            array_size = int(array_size)
+            array_size = self.unpack_arraysize(array_size)
 
         embedded_object = False
         if 'EmbeddedObject' in attrl or 'EMBEDDEDOBJECT' in attrl:
@@ -1723,7 +1723,7 @@ class TupleParser:
         array_size = attrl.get('ARRAYSIZE', None)
         if array_size is not None:
             # Issue #1044: Clarify if hex support is needed
-            array_size = int(array_size)
+            array_size = self.unpack_arraysize(array_size)
 
         qualifiers = self.list_of_matching(tup_tree, ('QUALIFIER',))
 
@@ -1762,7 +1762,7 @@ class TupleParser:
         array_size = attrl.get('ARRAYSIZE', None)
         if array_size is not None:
             # Issue #1044: Clarify if hex support is needed
-            array_size = int(array_size)
+            array_size = self.unpack_arraysize(array_size)
 
         qualifiers = self.list_of_matching(tup_tree, ('QUALIFIER',))
 
@@ -2430,6 +2430,28 @@ class TupleParser:
         raise CIMXMLParseError(
             _format("Invalid CIM type found: {0!A}", cimtype),
             conn_id=self.conn_id)
+
+    def unpack_arraysize(self, data):
+        """
+        Unpack the value of an ARRAYSIZE attribute and return it as an integer.
+
+        Parameters:
+
+          data (str): Value of the ARRAYSIZE attribute. Must not be None.
+
+        Raises:
+
+          CIMXMLParseError: The value is not a decimal integer.
+        """
+        try:
+            return int(data)
+        except ValueError:
+            new_exc = CIMXMLParseError(
+                _format("Invalid non-integer value for attribute ARRAYSIZE: "
+                        "{0!A}", data),
+                conn_id=self.conn_id)
+            new_exc.__cause__ = None
+            raise new_exc
 
     def unpack_boolean(self, data):
         """
